@@ -2,6 +2,8 @@ package c08
 
 import (
 	"fmt"
+	"github.com/go-kid/ioc/component_definition"
+	"github.com/go-kid/ioc/container/processors"
 	"strings"
 	"testing"
 
@@ -60,6 +62,29 @@ func genField(t *rapid.T, provs []pop.ProvSpec, forceEmptyOptional bool) pop.Fie
 	return pop.FieldSpec{Type: typ, Tag: fmt.Sprintf(`wire:"%s"`, args)}
 }
 
+// QualEraser is a user post-processor that runs in front of the matching processors and, through the public
+// Property.SetArg, requests the EMPTY qualifier set for some points ("no plug-in group is enabled in this profile"):
+// nothing qualifies - an optional point stays empty, a required one fails the start.
+type QualEraser struct {
+	processors.DefaultInstantiationAwareComponentPostProcessor
+	fields map[string]bool
+}
+
+func (*QualEraser) Naming() string { return "aa-qual-eraser" }
+func (*QualEraser) Priority()      {}
+func (*QualEraser) Order() int     { return -10 }
+func (*QualEraser) PostProcessAfterInstantiation(c any, n string) (bool, error) {
+	return true, nil
+}
+func (q *QualEraser) PostProcessProperties(ps []*component_definition.Property, c any, n string) ([]*component_definition.Property, error) {
+	for _, p := range ps {
+		if p.Tag == "wire" && q.fields[p.StructField.Name] {
+			p.SetArg(component_definition.ArgQualifier)
+		}
+	}
+	return nil, nil
+}
+
 func TestNarrowing(t *testing.T) {
 	kit.Rec.Rule(rule)
 	rapid.Check(t, func(t *rapid.T) {
@@ -88,8 +113,24 @@ func TestNarrowing(t *testing.T) {
 		case 1:
 			in.Extra = append(in.Extra, &graph.OrderedObsPP{ObsPP: graph.ObsPP{Tag: "c08o", Log: in.Log, OrderV: 1, NoBudget: true}})
 		}
+		// now and then a user post-processor requests the empty qualifier set for the consumers' field F1 / F2
+		model.AdjustPoint = nil
+		erased := ""
+		if rapid.IntRange(0, 5).Draw(t, "eraser") == 0 {
+			erased = rapid.SampledFrom([]string{"F0", "F1", "F2"}).Draw(t, "erasedfield")
+			in.Extra = append(in.Extra, &QualEraser{fields: map[string]bool{erased: true}})
+			model.AdjustPoint = func(p *model.Point) {
+				if p.Tag == "wire" && p.Field.Name == erased {
+					p.Args["qualifier"] = []string{}
+				}
+			}
+		}
 		in.Run()
+		model.AdjustPoint = nil
 		desc := s.Shape()
+		if erased != "" {
+			desc += " empty-qualifier-set-on=" + erased
+		}
 		if in.Out.Panic != nil {
 			t.Fatalf("C08: start-up panicked: %v\nscenario: %s", in.Out.Panic, desc)
 		}
